@@ -345,6 +345,7 @@ P = {
   technique="origin (ownership) dataflow + keyword coverage at raise sites"),
 "C29": dict(
   decided={
+    "C29.f": "html_escape evaluated on sample texts equals html.escape (every markup character escaped whatever else the text contains)",
     "C29.e": "dot_repr, which the taint rule treats as a sanitiser, returns in its string branch only text that went through dot_escape (whole or sliced), never the raw argument",
     "C29.a": "no model-derived text reaches a DOT/PlantUML write without passing an escaping function (taint with path atoms)",
     "C29.b": "dot_escape covers the record-label specials",
@@ -365,7 +366,8 @@ P = {
   declined="end-to-end CLI behaviour (click parsing)",
   technique="key-normalisation dataflow + decision table + handler discipline"),
 "C31": dict(
-  decided={"C31.a": "obligation O5: an output file opened for writing is removed on every exceptional exit up to gen_file (or written via temp + os.replace)",
+  decided={
+    "C31.d": "in generators.py an exporter is used only as gen_file's callback (partial(...) or a call inside the local callback) and writes the very file expression gen_file guards","C31.a": "obligation O5: an output file opened for writing is removed on every exceptional exit up to gen_file (or written via temp + os.replace)",
            "C31.b": "the handler removing the partial output is catch-all",
            "C31.c": "the built-in export writers let I/O errors of write/close propagate (nothing swallowed, file managed by with)"},
   declined="nothing else",
